@@ -1,0 +1,81 @@
+//go:build verif
+
+package keeper
+
+// Contracts for the deductive checker in /verif (comment-only; compiled only with -tags verif).
+// Account-level specification functions (ValidCVA, VestedAt, ...) and the assumed contracts of the expected
+// keepers are in x/vesting/types/zz_contracts_verif.go.
+
+/*@
+alias CVA github.com/haqq-network/haqq/x/vesting/types.ClawbackVestingAccount
+alias MsgClawback github.com/haqq-network/haqq/x/vesting/types.MsgClawback
+
+func (Keeper).GetClawbackVestingAccount
+    ensures found: result.1 == nil ==> result.0 != nil && result.0 < $alloc && ValidCVA(*result.0) && result.0.BaseVestingAccount < $alloc
+            && result.0.BaseAccount != nil
+    allow frame
+
+// C09: the clawback transfers exactly the unvested amount to the destination, after the updated account
+// (all unvested periods removed, lockup capped at the vested amount) has been stored
+func (Keeper).transferClawback
+    let now = time_unix(ctx_blocktime(ctx))
+    let unvested = csub(old(va.OriginalVesting), VestedAt(va, now))
+    modifies bank_bal, *va.BaseVestingAccount
+    requires valid: ValidCVA(va) && va.BaseAccount != nil
+    ensures nothing: result == nil && ciszero(unvested) ==> bank_bal == old(bank_bal)
+    ensures moved: result == nil && !ciszero(unvested) ==> (exists a Addr :: bank_bal == bank_move(old(bank_bal), a, dest, unvested))
+    ensures failed: result != nil ==> bank_bal == old(bank_bal)
+    ensures kept: result == nil ==> va.OriginalVesting == old(VestedAt(va, now))
+    call SendCoins requires amount: amt == unvested && toAddr == dest
+    allow frame
+
+// C09: only the recorded funder can trigger a clawback
+func (Keeper).Clawback
+    modifies bank_bal
+    requires msg: msg != nil
+    call transferClawback requires funder: va.FunderAddress == addr_string(addr_of_bech32(msg.FunderAddress))
+    call transferClawback requires dest: dest == ite(msg.DestAddress == "", addr_of_bech32(msg.FunderAddress), dest)
+    ensures rejected: result.1 != nil ==> bank_bal == old(bank_bal)
+    allow frame
+
+// C09: merging a grant yields exactly the union of both schedules' release events (at their absolute times)
+func (Keeper).addGrant
+    ghostvar u int
+    let s = time_unix(old(va.StartTime))
+    modifies *va, *va.BaseVestingAccount
+    requires account: va != nil && ValidCVA(*va) && va.BaseAccount != nil
+    requires grant: (forall k int :: 0 <= k && k < len(grantLockupPeriods) ==> grantLockupPeriods[k].Length >= 0 && cnonneg(grantLockupPeriods[k].Amount))
+            && (forall k int :: 0 <= k && k < len(grantVestingPeriods) ==> grantVestingPeriods[k].Length >= 0 && cnonneg(grantVestingPeriods[k].Amount))
+    ensures start: result == nil ==> time_unix(va.StartTime) == imin(s, grantStartTime)
+    ensures lockup: result == nil ==> Ended(time_unix(va.StartTime), va.LockupPeriods, len(va.LockupPeriods), u)
+            == cadd(old(Ended(time_unix(va.StartTime), va.LockupPeriods, len(va.LockupPeriods), u)), Ended(grantStartTime, grantLockupPeriods, len(grantLockupPeriods), u))
+    ensures vesting: result == nil ==> Ended(time_unix(va.StartTime), va.VestingPeriods, len(va.VestingPeriods), u)
+            == cadd(old(Ended(time_unix(va.StartTime), va.VestingPeriods, len(va.VestingPeriods), u)), Ended(grantStartTime, grantVestingPeriods, len(grantVestingPeriods), u))
+    ensures original: result == nil ==> va.OriginalVesting == cadd(old(va.OriginalVesting), grantCoins)
+    ensures valid: result == nil && Sum(grantLockupPeriods, len(grantLockupPeriods)) == grantCoins
+            && Sum(grantVestingPeriods, len(grantVestingPeriods)) == grantCoins ==> ValidCVA(*va)
+    ensures funder: va.FunderAddress == old(va.FunderAddress) && va.BaseVestingAccount == old(va.BaseVestingAccount)
+    ensures failed: result != nil ==> *va == old(*va) && *va.BaseVestingAccount == old(*va.BaseVestingAccount)
+
+// C11 (and C09): applying a schedule to an account keeps every release event of the granted coins at the
+// absolute time it has in the schedule anchored at startTime - nothing unlocks or vests earlier - and
+// every event the account already had stays where it was.
+func (Keeper).ApplyVestingSchedule
+    ghostvar u int
+    let s = time_unix(startTime)
+    let acc = result.0
+    requires schedule: (forall k int :: 0 <= k && k < len(lockupPeriods) ==> lockupPeriods[k].Length >= 0 && cnonneg(lockupPeriods[k].Amount))
+            && (forall k int :: 0 <= k && k < len(vestingPeriods) ==> vestingPeriods[k].Length >= 0 && cnonneg(vestingPeriods[k].Amount))
+            && Sum(lockupPeriods, len(lockupPeriods)) == coins && Sum(vestingPeriods, len(vestingPeriods)) == coins
+    ensures created: result.3 == nil && !result.2 ==> acc != nil && ValidCVA(*acc) && acc.OriginalVesting == coins
+            && Ended(time_unix(acc.StartTime), acc.LockupPeriods, len(acc.LockupPeriods), u) == Ended(s, lockupPeriods, len(lockupPeriods), u)
+            && Ended(time_unix(acc.StartTime), acc.VestingPeriods, len(acc.VestingPeriods), u) == Ended(s, vestingPeriods, len(vestingPeriods), u)
+    ensures merged_lockup: result.3 == nil && result.2 ==> acc != nil
+            && Ended(time_unix(acc.StartTime), acc.LockupPeriods, len(acc.LockupPeriods), u)
+               == cadd(old(Ended(time_unix(acc.StartTime), acc.LockupPeriods, len(acc.LockupPeriods), u)), Ended(s, lockupPeriods, len(lockupPeriods), u))
+    ensures merged_vesting: result.3 == nil && result.2 ==> acc != nil
+            && Ended(time_unix(acc.StartTime), acc.VestingPeriods, len(acc.VestingPeriods), u)
+               == cadd(old(Ended(time_unix(acc.StartTime), acc.VestingPeriods, len(acc.VestingPeriods), u)), Ended(s, vestingPeriods, len(vestingPeriods), u))
+    ensures merged_total: result.3 == nil && result.2 ==> acc.OriginalVesting == cadd(old(acc.OriginalVesting), coins) && ValidCVA(*acc)
+    allow frame
+@*/
